@@ -798,6 +798,50 @@ def check_k6_k7(chk, m, cfg):
             okp = sum(1 for es in after if "P" in es) == 1
             chk.ob("K6.prompt-after-command", sid, okp, "after the command finishes the prompt is reset exactly once", p.ret_inst.loc, fn.name)
     chk.expect("K6", "dispatch segments [%s]" % cfg, n, 2)
+    # every character taken out of the ring reaches the line editor: on a segment where a fetch is known to have produced a character
+    # (its result tested against -1), that character is compared with an editing character or stored into the line.  A fetch whose
+    # result is only tested against -1 and then dropped (a drain loop) loses input the user has typed
+    n_taken = 0
+    for start, p in segs:
+        for k, e in enumerate(p.events):
+            if e.kind != "call" or e.callee not in ("console_getch", "ringbuf_get") or e.res is None:
+                continue
+            res = e.res
+            got = None
+            used = False
+            for c, taken, inst in p.conds:
+                cc = strip_casts(c)
+                if not paths.contains(cc, lambda x: x == res):
+                    continue
+                if inst is not None and inst.op == "switch":
+                    used = True
+                    if got is None and taken != "default" and taken != 0xffffffff:
+                        got = True
+                    continue
+                if cc[0] == "icmp" and cc[1] in ("eq", "ne") and strip_casts(cc[2]) == res and cc[3][0] == "c" and cc[3][2] == (1 << cc[3][1]) - 1:
+                    got = (cc[1] == "ne") == bool(taken)
+                elif cc[0] == "icmp" and cc[1] in ("sge", "sgt") and strip_casts(cc[2]) == res and cc[3][0] == "c" and cc[3][2] in (0, (1 << cc[3][1]) - 1):
+                    got = bool(taken)
+                elif cc[0] == "icmp" and cc[1] in ("slt", "sle") and strip_casts(cc[2]) == res and cc[3][0] == "c" and cc[3][2] in (0, (1 << cc[3][1]) - 1):
+                    got = not taken
+                else:
+                    used = True
+            if not got:
+                continue
+            for e2 in p.events[k + 1:]:
+                if e2.kind == "store" and e2.val is not None and paths.contains(e2.val, lambda x: x == res):
+                    used = True
+                if e2.kind == "call" and any(isinstance(a, tuple) and paths.contains(a, lambda x: x == res) for a in (e2.args or ())):
+                    used = True
+            carried = getattr(p, "carried", None) or {}
+            if any(paths.contains(v, lambda x: x == res) for v in carried.values()):
+                used = True        # kept in a variable for the next stretch of the loop
+            n_taken += 1
+            chk.ob("K6.char-consumed", "console_run[%s] %s..%s %s" % (cfg, start.lstrip("%"), p.end, e.inst.loc), used,
+                   "the character fetched here is handed to the line editor (compared with an editing character, stored, passed on)" if used else
+                   "the character fetched at %s is known to be a character (not -1) and is then dropped: whatever the user had typed "
+                   "ahead is thrown away and never reaches a command line" % e.inst.loc, e.inst.loc, fn.name)
+    chk.expect("K6", "segments of console_run that take a character out of the ring [%s]" % cfg, n_taken, 1)
     # K7
     for name, first, then in (("console_putchar", "ringbuf_put", "fibre_run_atomic"), ("console_process", "ringbuf_put", "console_run")):
         f = m.fn(name)
